@@ -155,7 +155,9 @@ pub(super) fn animate<T: Component>(
         // from the `timeline` struct anymore after the `update`.
         let timeline_delay = timeline.delay();
         let timeline_duration = timeline.duration();
-        if animator.state == AnimationState::Playing {
+        if animator.state == AnimationState::Playing
+            || (position_secs >= timeline_duration && animator.state != AnimationState::Ended)
+        {
             if let Ok(mut target) = targets.get_mut(entity) {
                 timeline.update(&mut target, position_secs);
             }
